@@ -407,6 +407,70 @@ theorem eval_in (hx : ExtOk ext) (n : Nat) {S : Store} {Gs : List SEnv} {st : St
     obtain ⟨S', g, hk, hv, l, gl⟩ := h
     exact ⟨S', g, hok.mono g hk l gl, hv, l, gl⟩
 
+/-- an optional operand of a step range -/
+theorem numOr_in (hx : ExtOk ext) (k : Nat) {S : Store} {Gs : List SEnv} {st : St F} (hok : StOk S Gs Gg st)
+    (oe : Option (Expr F)) (d : F) (hty : ∀ x, oe = some x → Typed (lookupG Gs Gg) x .num) :
+    match evalNumOr ops ext prog k oe d st with
+    | .ok _ st' => ∃ S', Grows S S' ∧ StOk S' Gs Gg st' ∧ st'.locals = st.locals ∧ st'.global = st.global
+    | .err o _ => Doc o := by
+  cases k with
+  | zero => simp [evalNumOr]; trivial
+  | succ n =>
+    unfold evalNumOr
+    have key : ∀ e, Typed (lookupG Gs Gg) e .num →
+        (match (match evalE ops ext prog n e st with
+          | .err o st' => (.err o st' : Res F F)
+          | .ok (.num v) st' => .ok v st'
+          | .ok _ st' => .err (.internal "ErrType: expected number") st') with
+        | .ok _ st' => ∃ S', Grows S S' ∧ StOk S' Gs Gg st' ∧ st'.locals = st.locals ∧ st'.global = st.global
+        | .err o _ => Doc o) := by
+      intro e hte
+      have h1 := eval_in ops ext prog Gg hx n hok e .num hte
+      cases hq : evalE ops ext prog n e st with
+      | err o s1 => rw [hq] at h1; exact h1
+      | ok v s1 =>
+        rw [hq] at h1
+        obtain ⟨S1, g1, hok1, hv1, l1, gl1⟩ := h1
+        obtain ⟨x, rfl⟩ := hv1.num_inv
+        exact ⟨S1, g1, hok1, l1, gl1⟩
+    cases oe with
+    | none => exact key _ (.num d)
+    | some e => exact key e (hty e rfl)
+
+/-- the scope of the loop variable after the range has been evaluated -/
+theorem loop_scope_ok {S : Store} {Gs : List SEnv} {st : St F} (hok : StOk S ([] :: Gs) Gg st) (lv : Option Str) (t : Ty)
+    (hlv : ∀ n, lv = some n → n ≠ underscore) (z : Val F) (hz : VT S z t) :
+    StOk S (loopScope lv t :: Gs) Gg (match lv with | some n => setVar st n z | none => st) := by
+  cases lv with
+  | none => exact hok
+  | some n =>
+    have hne := hlv n rfl
+    have hl := hok.locals
+    cases hl' : st.locals with
+    | nil => rw [hl'] at hl; cases hl
+    | cons sc scs =>
+      rw [hl'] at hl
+      cases hl with
+      | cons hsc hrest =>
+        cases hsc
+        refine ⟨?_, ?_, ?_⟩
+        · simp only [setVar, hne, if_false, hl', loopScope]
+          exact .cons (.cons ⟨rfl, hz⟩ .nil) hrest
+        · simp only [setVar, hne, if_false, hl']; exact hok.global
+        · simp only [setVar, hne, if_false, hl']; exact hok.heap
+
+/-- after the loop the scope of the loop variable is popped, whatever happened -/
+theorem for_finish {S S1 : Store} {Gs : List SEnv} (lvs : SEnv) (g : Grows S S1) (r : Res F (Completion F))
+    (h : GoodK Gg ρ S1 (lvs :: Gs) r) :
+    GoodS Gg ρ S Gs Gs (match r with
+      | .err o s' => .err o (popScope s')
+      | .ok c s' => .ok c (popScope s')) := by
+  cases r with
+  | err o s => exact h
+  | ok c s =>
+    obtain ⟨S2, g2, hok, hc⟩ := h
+    exact ⟨S2, Gs, g.trans g2, hok.pop Gg rfl (by simp), rfl, rfl, fun _ => rfl, hc⟩
+
 def SoundS (fuel : Nat) : Prop :=
   (∀ (s : Stmt F) st Gs Gs' S, STyped Gg ρ Gs s Gs' → StOk S Gs Gg st →
       GoodS Gg ρ S Gs Gs' (execS ops ext prog fuel s st)) ∧
@@ -421,7 +485,17 @@ def SoundS (fuel : Nat) : Prop :=
       (∀ b, els = some b → BTyped Gg ρ ([] :: Gs) b) → StOk S Gs Gg st →
       GoodK Gg ρ S Gs (execIfChain ops ext prog fuel conds els st)) ∧
   (∀ (c : Expr F) (body : List (Stmt F)) st Gs S, Typed (lookupG Gs Gg) c .bool → BTyped Gg ρ ([] :: Gs) body → StOk S Gs Gg st →
-      GoodK Gg ρ S Gs (execWhile ops ext prog fuel c body st))
+      GoodK Gg ρ S Gs (execWhile ops ext prog fuel c body st)) ∧
+  (∀ (lv : Option Str) (t : Ty) (r : Ranger F) (body : List (Stmt F)) st Gs S, (∀ n, lv = some n → n ≠ underscore) →
+      RangerOk S r t → BTyped Gg ρ ([] :: loopScope lv t :: Gs) body → StOk S (loopScope lv t :: Gs) Gg st →
+      GoodK Gg ρ S (loopScope lv t :: Gs)
+        (execForLoop ops ext prog fuel (match lv with | some n => n | none => underscore) r body st))
+
+theorem GoodK.grow {S S1 : Store} {Gs : List SEnv} {r : Res F (Completion F)} (h : GoodK Gg ρ S1 Gs r) (g : Grows S S1) :
+    GoodK Gg ρ S Gs r := by
+  cases r with
+  | err o s => exact h
+  | ok c s => obtain ⟨S', g', hok, hc⟩ := h; exact ⟨S', g.trans g', hok, hc⟩
 
 theorem GoodK.toS {S : Store} {Gs : List SEnv} {r : Res F (Completion F)} (h : GoodK Gg ρ S Gs r) : GoodS Gg ρ S Gs Gs r := by
   cases r with
@@ -434,11 +508,11 @@ theorem lookupG_ne_underscore {Gs : List SEnv} {n : Str} {t : Ty} (h : lookupG G
 theorem soundS (hx : ExtOk ext) (fuel : Nat) : SoundS ops ext prog Gg ρ fuel := by
   induction fuel with
   | zero =>
-    refine ⟨?_, ?_, ?_, ?_, ?_, ?_⟩ <;> intros <;>
-      simp [execS, execStmts, execBlockNode, execCond, execIfChain, execWhile, GoodS, GoodB, GoodK, GoodC, Doc]
+    refine ⟨?_, ?_, ?_, ?_, ?_, ?_, ?_⟩ <;> intros <;>
+      simp [execS, execStmts, execBlockNode, execCond, execIfChain, execWhile, execForLoop, GoodS, GoodB, GoodK, GoodC, Doc]
   | succ n ih =>
-    obtain ⟨ihS, ihB, ihN, ihC, ihI, ihW⟩ := ih
-    refine ⟨?_, ?_, ?_, ?_, ?_, ?_⟩
+    obtain ⟨ihS, ihB, ihN, ihC, ihI, ihW, ihF⟩ := ih
+    refine ⟨?_, ?_, ?_, ?_, ?_, ?_, ?_⟩
     · -- one statement
       intro s st0 Gs Gs' S hty hok0
       unfold execS
@@ -609,6 +683,90 @@ theorem soundS (hx : ExtOk ext) (fuel : Nat) : SoundS ops ext prog Gg ρ fuel :=
             exact ⟨S1, Gs, g1, hok1, rfl, rfl, (fun h => by cases h), ⟨t, hr, hv1⟩⟩
         | ifS _ conds els hc hb he => exact (ihI conds els st Gs S hc hb he hok).toS Gg ρ
         | whileS _ c body hc hb => exact (ihW c body st Gs S hc hb hok).toS Gg ρ
+        | forStep _ lv lvTy start stop step body hlv hstart hstop hstep hbody =>
+          simp only
+          have hp := hok.push Gg
+          have e1 : lookupG ([] :: Gs) Gg = lookupG Gs Gg := lookupG_push Gs Gg
+          have h1 := numOr_in ops ext prog Gg hx n hp start ops.zero (by rw [e1]; exact hstart)
+          cases hq : evalNumOr ops ext prog n start ops.zero (pushScope st) with
+          | err o s1 => rw [hq] at h1; exact h1
+          | ok a s1 =>
+            rw [hq] at h1
+            obtain ⟨S1, g1, hok1, _, _⟩ := h1
+            simp only
+            have h2 := numOr_in ops ext prog Gg hx n hok1 (some stop) ops.zero (by intro x hx'; cases hx'; rw [e1]; exact hstop)
+            cases hq2 : evalNumOr ops ext prog n (some stop) ops.zero s1 with
+            | err o s2 => rw [hq2] at h2; exact h2
+            | ok b s2 =>
+              rw [hq2] at h2
+              obtain ⟨S2, g2, hok2, _, _⟩ := h2
+              simp only
+              have h3 := numOr_in ops ext prog Gg hx n hok2 step ops.one (by rw [e1]; exact hstep)
+              cases hq3 : evalNumOr ops ext prog n step ops.one s2 with
+              | err o s3 => rw [hq3] at h3; exact h3
+              | ok c s3 =>
+                rw [hq3] at h3
+                obtain ⟨S3, g3, hok3, _, _⟩ := h3
+                by_cases hc : ops.eq c ops.zero = true
+                · simp only [hc, if_true]; exact trivial
+                · simp only [hc]
+                  have hls := loop_scope_ok Gg hok3 lv .num hlv (.num ops.zero) (.num _)
+                  have hf := ihF lv .num (.step a b c) body _ Gs S3 hlv rfl hbody hls
+                  exact for_finish Gg ρ _ ((g1.trans g2).trans g3) _ hf
+        | forArr _ lv e s body hlv he hbody =>
+          simp only
+          have hp := hok.push Gg
+          have e1 : lookupG ([] :: Gs) Gg = lookupG Gs Gg := lookupG_push Gs Gg
+          have h1 := eval_in ops ext prog Gg hx n hp e (.arr s) (by rw [e1]; exact he)
+          cases hq : evalE ops ext prog n e (pushScope st) with
+          | err o s1 => rw [hq] at h1; exact h1
+          | ok v s1 =>
+            rw [hq] at h1
+            obtain ⟨S1, g1, hok1, hv1, _, _⟩ := h1
+            obtain ⟨a, rfl, ha⟩ := hv1.arr_inv
+            have hs : Reg s = true := by have := hok1.heap.reg _ (List.mem_of_getElem? ha); simpa [Reg] using this
+            simp only
+            cases lv with
+            | none =>
+              have hf := ihF none s (.arr a 0) body s1 Gs S1 hlv ha hbody hok1
+              exact for_finish Gg ρ _ g1 _ hf
+            | some nm =>
+              obtain ⟨S2, g2, hk2, hz, zl, zg⟩ := zeroVal_typed ops hok1.heap s hs
+              have hok2 : StOk S2 ([] :: Gs) Gg (zeroVal ops s1 s).2 := hok1.mono g2 hk2 zl zg
+              have hls := loop_scope_ok Gg hok2 (some nm) s hlv _ hz
+              have hf := ihF (some nm) s (.arr a 0) body _ Gs S2 hlv (g2.get ha) hbody hls
+              exact for_finish Gg ρ _ (g1.trans g2) _ hf
+        | forStr _ lv lvTy e body hlv he hbody =>
+          simp only
+          have hp := hok.push Gg
+          have e1 : lookupG ([] :: Gs) Gg = lookupG Gs Gg := lookupG_push Gs Gg
+          have h1 := eval_in ops ext prog Gg hx n hp e .str (by rw [e1]; exact he)
+          cases hq : evalE ops ext prog n e (pushScope st) with
+          | err o s1 => rw [hq] at h1; exact h1
+          | ok v s1 =>
+            rw [hq] at h1
+            obtain ⟨S1, g1, hok1, hv1, _, _⟩ := h1
+            obtain ⟨cs, rfl⟩ := hv1.str_inv
+            simp only
+            have hls := loop_scope_ok Gg hok1 lv .str hlv (.str []) (.str _)
+            have hf := ihF lv .str (.str cs 0) body _ Gs S1 hlv rfl hbody hls
+            exact for_finish Gg ρ _ g1 _ hf
+        | forMap _ lv lvTy e s body hlv he hbody =>
+          simp only
+          have hp := hok.push Gg
+          have e1 : lookupG ([] :: Gs) Gg = lookupG Gs Gg := lookupG_push Gs Gg
+          have h1 := eval_in ops ext prog Gg hx n hp e (.map s) (by rw [e1]; exact he)
+          cases hq : evalE ops ext prog n e (pushScope st) with
+          | err o s1 => rw [hq] at h1; exact h1
+          | ok v s1 =>
+            rw [hq] at h1
+            obtain ⟨S1, g1, hok1, hv1, _, _⟩ := h1
+            obtain ⟨a, rfl, ha⟩ := hv1.map_inv
+            obtain ⟨m, hm, _⟩ := hok1.heap.map a s ha
+            simp only [heapGet, hm]
+            have hls := loop_scope_ok Gg hok1 lv .str hlv (.str []) (.str _)
+            have hf := ihF lv .str (.map a m.order) body _ Gs S1 hlv rfl hbody hls
+            exact for_finish Gg ρ _ g1 _ hf
         | print _ args hargs =>
           simp only
           cases n with
@@ -743,6 +901,42 @@ theorem soundS (hx : ExtOk ext) (fuel : Nat) : SoundS ops ext prog Gg ρ fuel :=
               rw [hq2] at h2
               obtain ⟨S2, g2, hok2, hc2⟩ := h2
               exact ⟨S2, g1.trans g2, hok2, hc2⟩
+
+    · -- the loop of a for statement
+      intro lv t r body st Gs S hlv hr hb hok
+      unfold execForLoop
+      cases hn : rangerNext ops st r with
+      | none => exact ⟨S, Grows.refl S, hok, trivial⟩
+      | some p =>
+        obtain ⟨v, r'⟩ := p
+        obtain ⟨hv, hr'⟩ := rangerNext_typed ops hok.heap r r' t v hr hn
+        simp only
+        -- rebinding the loop variable
+        have hupd : ∃ st1, updateVar st (match lv with | some n => n | none => underscore) v = some st1 ∧
+            StOk S (loopScope lv t :: Gs) Gg st1 := by
+          cases lv with
+          | none => exact ⟨st, by simp [updateVar], hok⟩
+          | some nm =>
+            have hne := hlv nm rfl
+            have hu := (hok.locals.update nm v t hv).1 (by simp [loopScope, List.findSome?_cons, senvGet, List.lookup])
+            obtain ⟨l', hl', hokl⟩ := hu
+            exact ⟨{ st with locals := l' }, by simp only [updateVar, hne, if_false, hl'], ⟨hokl, hok.global, hok.heap⟩⟩
+        obtain ⟨st1, hu1, hok1⟩ := hupd
+        rw [hu1]
+        simp only
+        have h2 := ihN body (pushScope st1) ([] :: loopScope lv t :: Gs) S hb (hok1.push Gg)
+        have h3 := pop_block Gg ρ (Grows.refl S) _ h2
+        cases hq2 : execBlockNode ops ext prog n body (pushScope st1) with
+        | err o s2 => rw [hq2] at h3; exact h3
+        | ok c2 s2 =>
+          rw [hq2] at h3
+          obtain ⟨S2, g2, hok2, hc2⟩ := h3
+          cases c2 with
+          | brk => exact ⟨S2, g2, hok2, trivial⟩
+          | ret rv => exact ⟨S2, g2, hok2, hc2⟩
+          | normal =>
+            simp only
+            exact (ihF lv t r' body (popScope s2) Gs S2 hlv (hr'.mono g2) hb hok2).grow Gg ρ g2
 
 /-- **type soundness, statements**: a well-typed statement list run for any number of steps in a
 well-typed state ends in a well-typed state (outer scopes as typed, a returned value of the result
